@@ -13,6 +13,7 @@ import numpy as np
 from vk.run import Harness
 from vk import symnp
 from kawin.precipitation.KWNEuler import PrecipitateModel
+from kawin.precipitation.KWNBase import PrecipitateBase
 from kawin.precipitation.PopulationBalance import PopulationBalanceModel as PBM
 from kawin.precipitation.PrecipitationParameters import PrecipitateParameters, PrecipitationData
 from kawin.precipitation import NucleationRate as nucfuncs
@@ -368,6 +369,128 @@ def binary_sign(ctx, nb=2, shape="sphere", strain=True, eff=False, sentinel=Fals
         sign_claims(ctx, "binary", R, g[i], prop, Rc, unclamped)
 
 
+# ----------------------------------------------------------------------------- C12.step_sign
+def step_sign(ctx, nb=2, shape="sphere", ne=2):
+    """one evaluation of the real PrecipitateBase._calculateDependentTerms on a multicomponent model whose previous state
+    (recorded slice, driving force dG_old) differs from the new one (matrix composition changed by the mass balance, the
+    backend reports dG_new): the growth rates left in model.growth are those of the driving force computed in THIS call
+    and change sign at the critical radius this call stores in the state (real _processX, _calcNucleationRate incl.
+    volumetricDrivingForce / nucleationBarrier / betaMulti / zeldovich / incubationTime / nucleationRate /
+    nucleationRadius, _growthRate -> _growthRateMulti -> _singleGrowthMulti -> getGrowthAndInterfacialComposition)"""
+    els = ["A", "B", "C"][:ne]
+    m, pp, s = mk_model(ctx, nb, els, shape, False)
+    T = ctx.real("T", (500.0, 900.0)); ctx.assume(T > 0)
+    aM = ctx.real("latticeParameter", (0.5, 2.0)); ctx.assume(aM > 0)
+    m.matrixParameters.volume.a = aM
+    pp.volume.a = aM
+    m.setTemperature(T)
+    x_old = ctx.reals("x_old", ne, (0.02, 0.2)); x_new = ctx.reals("x_new", ne, (0.02, 0.2))
+    dg_old = ctx.real("volDG_old", (0.2, 3.0)); chem_new = ctx.real("chemDG_new", (0.2, 6.0))
+    rc_old = ctx.real("Rcrit_old", (0.2, 3.0)); ctx.assume(rc_old >= 0)
+    mc = ctx.real("mc", (0.1, 2.0)); ctx.assume(mc > 0)
+    beta = ctx.real("beta", (0.1, 2.0)); ctx.assume(beta > 0)
+    sites = ctx.real("sites", (1.0, 5.0)); ctx.assume(sites >= 0)
+    dc = ctx.reals("dc", ne, (-0.05, 0.05)); gba = ctx.reals("gba", (ne, ne), (-1.0, 1.0))
+    cea = ctx.reals("c_eq_alpha", ne, (0.01, 0.2)); ceb = ctx.reals("c_eq_beta", ne, (0.2, 0.6))
+    t = ctx.real("t", (1.0, 5.0)); ctx.assume(t > 0)
+    th = object.__new__(MulticomponentThermodynamics)
+    th.phases = ["ALPHA"] + list(m.phases); th.elements = ["M"] + els + ["VA"]; th.numElements = ne + 1
+    asked = []
+    th.curvatureFactor = lambda xx, TT, precPhase=None, removeCache=False, searchDir=None, computeSearchDir=False: \
+        CurvatureOutput(dc=dc, mc=mc, gba=gba, beta=beta, c_eq_alpha=cea, c_eq_beta=ceb)
+
+    def df(xi, Ti, precPhase, removeCache, lpsc):
+        asked.append([xi[j] * 1 for j in range(ne)])
+        return chem_new, np.array([ctx.uf("betaComp%d" % j, Ti, rng=(0.3, 0.6)) for j in range(ne)])
+    th._drivingForce = df
+    m.setThermodynamics(th)
+    m.PSDXalpha = [None]; m.PSDXbeta = [None]
+    # recorded previous state
+    d = m.pData
+    d.time[0] = 0.0; d.temperature[0] = T
+    d.composition[0] = x_old
+    d.drivingForce[0, 0] = dg_old; d.Rcrit[0, 0] = rc_old
+    d.precipitateDensity[0, 0] = 1.0
+    m._currY = d.copySlice(d.n)                      # as left by the first stage of the iteration
+    # mass balance and site count are not the subject: the new state has another matrix composition
+    def massBalance(tt, xx, Y):
+        Y.composition[0] = x_new
+        Y.precipitateDensity[0, 0] = 1.0
+        return Y
+    m._calcMassBalance = massBalance
+    m._calcNucleationSites = lambda tt, xx, p: sites
+    psd = ctx.reals("psd", nb, (0.0, 5.0))
+    for i in range(nb):
+        ctx.assume(psd[i] >= 0)
+    vol_new = chem_new / s["vmb"]
+    ctx.assume(vol_new > 0, "precipitate can nucleate in the new state")
+    m._calculateDependentTerms(t, [psd])
+    Y = m._currY
+    g = m.growth[0]
+    ctx.observe("growth", g); ctx.observe("Rcrit", Y.Rcrit[0, 0]); ctx.observe("dG", Y.drivingForce[0, 0])
+    ctx.prove("backend asked for the driving force at the new matrix composition", len(asked) == 1 and ctx.all([ctx.eq(asked[0][j], x_new[j]) for j in range(ne)]))
+    ctx.prove("state carries the driving force computed in this call", ctx.eq(Y.drivingForce[0, 0], vol_new))
+    prop = 2 * s["f"] * s["gamma"] / vol_new
+    unclamped = prop >= pp.Rmin
+    ctx.prove("state carries the critical radius of this call's driving force", ctx.eq(Y.Rcrit[0, 0], ctx.ite(unclamped, prop, pp.Rmin * 1.0)))
+    for i in range(nb + 1):
+        R = m.PBM[0].PSDbounds[i]
+        ctx.prove("step: growth law evaluated with the driving force computed in this call",
+                  ctx.eq(g[i], s["k"] * (mc / R) * (vol_new * s["vmb"] - s["vmb"] * (2 * s["f"] * s["gamma"] / R))))
+        sign_claims(ctx, "step", R, g[i], prop, Y.Rcrit[0, 0], unclamped)
+
+
+# ----------------------------------------------------------------------------- C12.ifc_curvature
+def ifc_curvature(ctx, reverse=False, n=2):
+    """curvature method for the binary interfacial composition (real getInterfacialComposition ->
+    _interfacialCompositionFromCurvature) for both alphabetical orders of reference element and solute: at g = 0 the
+    planar solvus (the SOLUTE's mole fractions of the two composition sets) is returned, the matrix composition x(g)
+    satisfies (x - x_eq) G'' (x_prec - x_eq) = g -- the second-order form of 'driving force at x(g) equals g' -- and rises
+    with g"""
+    els = ["NI", "AL"] if reverse else ["AL", "ZR"]            # reference element first; pycalphad lists compositions alphabetically
+    th = object.__new__(BinaryThermodynamics)
+    th.phases = ["ALPHA", "P1"]; th.elements = els + ["VA"]; th.numElements = 2
+    th.reverse = th.elements[1] < th.elements[0]
+    th.db = None; th.models = {"ALPHA": "model-alpha", "P1": "model-p1"}; th.phase_records = _c09._PR(); th.pDens = 500
+    th._guessComposition = {"P1": (0, 1, 0.1)}
+    th.setInterfacialMethod("curvature")
+    T = ctx.real("T", (500.0, 1200.0))
+    g = ctx.reals("g", n, (0.0, 30.0))
+    for i in range(n):
+        ctx.assume(g[i] >= 0)
+    xm = ctx.real("xMeq", (0.01, 0.1)); xp = ctx.real("xPeq", (0.2, 0.3))
+    ctx.assume(xm > 0); ctx.assume(xp < 1); ctx.assume(xp > xm)
+    cm = ctx.real("d2G_matrix", (1e3, 1e4)); cp = ctx.real("d2G_precip", (1e3, 1e4))
+    ctx.assume(cm > 0); ctx.assume(cp > 0)
+    order = sorted(els)
+    comp = lambda xs: [xs if e == els[1] else 1 - xs for e in order]      # alphabetical, as pycalphad's CompositionSet.X
+
+    class Workspace:
+        def __init__(self, db, elements, phases, cond, models=None, phase_record_factory=None, calc_opts=None):
+            self.eq = type("EQ", (), {})()
+            self.eq.MU = np.array([[ctx.uf("mu0", cond[_c09.v.T], rng=(-3.0, -1.0)), ctx.uf("mu1", cond[_c09.v.T], rng=(-3.0, -1.0))]])
+
+        def enumerate_composition_sets(self):
+            yield (0, 0, 0, 0, 0), [_c09._CS("ALPHA", comp(xm)), _c09._CS("P1", comp(xp))]
+    curv = lambda mu, cs, ref: np.array([[cm if cs.phase_record.phase_name == "ALPHA" else cp]])
+    with _c09.patched(_c09._BT, "Workspace", Workspace), _c09.patched(_c09._BT, "dMudX", curv):
+        xa0, xb0 = th.getInterfacialComposition(T, 0, precPhase="P1")
+        xa, xb = th.getInterfacialComposition(T, g, precPhase="P1")
+    xa = np.atleast_1d(xa); xb = np.atleast_1d(xb)
+    ctx.observe("xa0", xa0 * 1.0); ctx.observe("xa", xa); ctx.observe("xb", xb)
+    ctx.prove("curvature method: g = 0 gives the planar solvus, i.e. the solute's mole fractions of matrix and precipitate",
+              ctx.all([ctx.eq(xa0 * 1.0, xm), ctx.eq(xb0 * 1.0, xp)]))
+    zero = 0.0 * xm
+    for i in range(n):
+        inside = ctx.all([xa[i] > 0, xa[i] < 1])
+        ctx.prove("curvature method: (x(g) - x_eq) G'' (x_prec - x_eq) = g for the solute (unclipped)",
+                  ctx.implies(inside, ctx.eq((xa[i] - xm) * cm * (xp - xm), g[i])))
+        ctx.prove("curvature method: matrix composition does not fall below the planar solvus", ctx.le(xm, xa[i]))
+        for j in range(n):
+            if j != i:
+                ctx.prove("curvature method: matrix composition rises with the Gibbs-Thomson energy", ctx.implies(g[i] <= g[j], ctx.le(xa[i], xa[j])))
+
+
 _F_COMMON = [nucfuncs.nucleationBarrier, nucfuncs.volumetricDrivingForce, PrecipitateParameters.computeGibbsThomsonContribution,
              PrecipitateParameters.computeStrainEnergyFromR, ShapeFactor.thermoFactor, ShapeFactor.kineticFactor,
              ShapeDescriptionBase.thermoFactor, ShapeDescriptionBase.kineticFactor, GeneralThermodynamics.getDrivingForce]
@@ -419,6 +542,21 @@ HARNESSES = [
                     "thorough": [{"nb": 4, "shape": sh, "strain": True, "eff": False, "sentinel": se, "nph": 1 + (sh == "plate")} for sh in ("sphere", "plate") for se in (False, True)] +
                                 [{"nb": 3, "shape": "sphere", "strain": False, "eff": True, "sentinel": False}] +
                                 [{"nb": 2, "shape": "needle", "strain": True, "eff": True, "sentinel": True, "nph": 2}]}),
+    Harness("C12.step_sign", step_sign,
+            functions=_F_COMMON + _F_MULTI + [PrecipitateBase._calculateDependentTerms, PrecipitateBase._calcNucleationRate, PrecipitateModel._processX, PrecipitateModel._growthRateMulti,
+                                              nucfuncs.betaMulti, nucfuncs.zeldovich, nucfuncs.incubationTime, nucfuncs.nucleationRate, nucfuncs.nucleationRadius,
+                                              MulticomponentThermodynamics.impingementFactor],
+            assumptions=_A + ["previous recorded state arbitrary (driving force, critical radius, composition); new state: chemical driving force > 0, no elastic strain energy, isothermal",
+                              "the evaluation is a later stage of an iteration (model._currY set), i.e. the branch that recomputes the dependent terms"],
+            stubs=_S_MULTI + ["_drivingForce: symbolic new chemical driving force", "_calcMassBalance (C01) replaced: new matrix composition; _calcNucleationSites: symbolic site count"],
+            bounds={"classes": "nb", "solutes": "ne", "phases": 1}, opts={"ob_timeout": 40.0},
+            params={"quick": [{"nb": 2, "shape": "sphere", "ne": 2}], "thorough": [{"nb": 3, "shape": "needle", "ne": 2}, {"nb": 3, "shape": "sphere", "ne": 3}]}),
+    Harness("C12.ifc_curvature", ifc_curvature,
+            functions=[BinaryThermodynamics.getInterfacialComposition, BinaryThermodynamics._interfacialCompositionFromCurvature, BinaryThermodynamics.setInterfacialMethod],
+            assumptions=["free-energy curvatures > 0; 0 < x_eq(matrix) < x_eq(precipitate) < 1 (solute); g >= 0",
+                         "composition sets list mole fractions alphabetically (pycalphad); both orders of reference element / solute"],
+            stubs=["pycalphad.Workspace: one matrix + precipitate pair with symbolic solute contents; dMudX: symbolic curvatures"], bounds={"Gibbs-Thomson energies": "n"},
+            params={"quick": [{"reverse": False, "n": 2}, {"reverse": True, "n": 2}], "thorough": [{"reverse": False, "n": 3}, {"reverse": True, "n": 3}]}),
     # the driving force that the phase-boundary / critical-radius relations are about is the one of the QUERIED temperature: the real
     # sampling path (body shared with C09.sampling_history) after an earlier query at another, arbitrarily close temperature
     Harness("C12.df_sampling_temperature", _c09.sampling_history,
